@@ -11,9 +11,10 @@ Modelled rather than verified / outside the quantifier:
   magnitude and sign, the theorems over an ordered field; the harness runs NaN, ±inf and −0.0 through
   the constructors for the correspondence only (model and code agree bit for bit).
 * `from_str` of the unit families wraps the text in quotes and reads it as a JSON string, so JSON escape
-  sequences are decoded by the code (`"mile\u0073"` parses as miles); the model answers `none` for any
-  text holding a backslash and the harness sends none (the only caller in the application is the Python
-  binding's argument parsing).
+  sequences are decoded by the code (`"mile\u0073"` parses as miles): `Units.jsonUnescape` models that
+  reader (a `\u` escape in the surrogate range is answered `none` whether serde_json refuses it or pairs
+  it — no serde name holds a character beyond the basic plane, so `from_str` answers the same); the harness
+  sends escaped spellings of names and near-names.
 -/
 import Compass.Proofs.Num
 import Compass.Model.Units
@@ -373,129 +374,276 @@ theorem speed_unit_from_pair_physical : ∀ (d : DistanceUnit) (t : TimeUnit) (u
     SpeedUnit.fromPair d t = .unit u → siSpeed u = siDistance d / siTime t := by
   decide +kernel
 
-/-- `from_str` reads exactly the serde names (`Display` prints them), nothing else — OF THE MODEL, which
-answers `none` for every text holding a backslash (the code decodes JSON escapes first: see the header;
-full statement not proved) -/
-theorem speed_unit_from_str_iff_partial (s : String) (u : SpeedUnit) :
+/-! ### `from_str`: the text, read as the body of a JSON string, must be a serde name
+
+`string_deserialize` puts the text between quotes and hands it to serde_json, so escape sequences are
+decoded before the name is matched (`"mile\\u0073"` is miles).  `jsonUnescape` models that reader; the
+theorems say: a text is accepted, as `u`, exactly when it stands for `u`'s serde name — and for a text
+without backslash that means: when it IS the name (`Display` prints it). -/
+
+/-- reading a character that is no backslash: refused if it is a raw quote or control character, else kept -/
+theorem jsonUnescape_cons_plain (c : Char) (rest : List Char) (hc : c ≠ '\\') :
+    jsonUnescape (c :: rest) =
+      if c == '"' || c.toNat < 32 then none else (jsonUnescape rest).map (c :: ·) := by
+  conv_lhs => unfold jsonUnescape
+  split
+  · rename_i heq; cases heq
+  · rename_i heq; simp at heq; exact absurd heq.1 hc
+  · rename_i heq
+    simp at heq
+    obtain ⟨rfl, rfl⟩ := heq
+    rfl
+
+/-- a text without quote, backslash and control character stands for itself -/
+theorem jsonUnescape_plain (l : List Char)
+    (h : ∀ c ∈ l, c ≠ '"' ∧ c ≠ '\\' ∧ 32 ≤ c.toNat) : jsonUnescape l = some l := by
+  induction l with
+  | nil => simp [jsonUnescape]
+  | cons c rest ih =>
+    obtain ⟨h1, h2, h3⟩ := h c (by simp)
+    have ih' := ih (fun d hd => h d (by simp [hd]))
+    rw [jsonUnescape_cons_plain c rest h2, ih']
+    have : ¬ c.toNat < 32 := by omega
+    simp [h1, this]
+
+/-- a text that holds a raw quote or a raw control character is no JSON string body: refused -/
+theorem jsonUnescape_refuses_raw (pre : List Char) (c : Char) (post : List Char)
+    (hpre : ∀ d ∈ pre, d ≠ '"' ∧ d ≠ '\\' ∧ 32 ≤ d.toNat) (hc : c = '"' ∨ (c.toNat < 32)) (hb : c ≠ '\\') :
+    jsonUnescape (pre ++ c :: post) = none := by
+  induction pre with
+  | nil =>
+    rw [List.nil_append, jsonUnescape_cons_plain c post hb]
+    rcases hc with rfl | hc
+    · simp
+    · simp [hc]
+  | cons d pre ih =>
+    obtain ⟨h1, h2, h3⟩ := hpre d (by simp)
+    have ih' := ih (fun e he => hpre e (by simp [he]))
+    rw [List.cons_append, jsonUnescape_cons_plain d _ h2, ih']
+    simp
+
+/-- the first element of a list that fails a test -/
+theorem exists_first_failing (P : Char → Prop) (l : List Char) (h : ¬ ∀ c ∈ l, P c) :
+    ∃ pre c post, l = pre ++ c :: post ∧ (∀ d ∈ pre, P d) ∧ ¬ P c := by
+  induction l with
+  | nil => exact absurd (by simp) h
+  | cons d l ih =>
+    by_cases hd : P d
+    · have h' : ¬ ∀ c ∈ l, P c := by
+        intro hall; apply h; intro c hc
+        rcases List.mem_cons.mp hc with rfl | hc
+        · exact hd
+        · exact hall c hc
+      obtain ⟨pre, c, post, e, hpre, hc⟩ := ih h'
+      refine ⟨d :: pre, c, post, by simp [e], ?_, hc⟩
+      intro x hx
+      rcases List.mem_cons.mp hx with rfl | hx
+      · exact hd
+      · exact hpre x hx
+    · exact ⟨[], d, l, rfl, by simp, hd⟩
+
+/-- the family-independent core: with a name table that is read back exactly, `from_str` accepts a text as
+`u` exactly when the text stands for `u`'s name -/
+theorem unitFromStr_iff {β : Type} (ofName? : String → Option β) (name : β → String)
+    (hn : ∀ t u, ofName? t = some u ↔ t = name u) (s : String) (u : β) :
+    unitFromStr ofName? s = some u ↔ jsonUnescape s.toList = some (name u).toList := by
+  unfold unitFromStr
+  cases h : jsonUnescape s.toList with
+  | none => simp
+  | some cs =>
+    simp only [hn, Option.some.injEq]
+    constructor
+    · intro h'; rw [← h']; simp
+    · intro h'; rw [h']; simp
+
+/-- for a text without a backslash: accepted as `u` exactly when it IS `u`'s name -/
+theorem unitFromStr_plain_iff {β : Type} (ofName? : String → Option β) (name : β → String)
+    (hn : ∀ t u, ofName? t = some u ↔ t = name u)
+    (hplain : ∀ u, ∀ c ∈ (name u).toList, c ≠ '"' ∧ c ≠ '\\' ∧ 32 ≤ c.toNat)
+    (s : String) (hs : '\\' ∉ s.toList) (u : β) :
+    unitFromStr ofName? s = some u ↔ s = name u := by
+  rw [unitFromStr_iff ofName? name hn]
+  constructor
+  · intro h
+    -- no backslash: either the text is plain (and stands for itself) or it is refused
+    by_cases hp : ∀ c ∈ s.toList, c ≠ '"' ∧ c ≠ '\\' ∧ 32 ≤ c.toNat
+    · rw [jsonUnescape_plain _ hp] at h
+      have : s.toList = (name u).toList := by simpa using h
+      exact String.toList_inj.mp this
+    · exfalso
+      -- the first offending character is a raw quote or control character
+      have := exists_first_failing (fun c => c ≠ '"' ∧ c ≠ '\\' ∧ 32 ≤ c.toNat) s.toList hp
+      obtain ⟨pre, c, post, e, hpre, hc⟩ := this
+      have hcb : c ≠ '\\' := fun hb => hs (by rw [e, hb]; simp)
+      have hc' : c = '"' ∨ c.toNat < 32 := by
+        by_cases hq : c = '"'
+        · exact Or.inl hq
+        · by_cases hl : c.toNat < 32
+          · exact Or.inr hl
+          · exact absurd ⟨hq, hcb, by omega⟩ hc
+      rw [e, jsonUnescape_refuses_raw pre c post hpre hc' hcb] at h
+      cases h
+  · rintro rfl
+    exact jsonUnescape_plain _ (hplain u)
+
+/-- the name table of `SpeedUnit` is read back exactly -/
+theorem speed_unit_of_name_iff (t : String) (u : SpeedUnit) : SpeedUnit.ofName? t = some u ↔ t = u.name := by
+  constructor
+  · intro h
+    simp only [SpeedUnit.ofName?] at h
+    have := List.find?_some h
+    exact (beq_iff_eq.mp this).symm
+  · rintro rfl
+    cases u <;> decide
+
+/-- `SpeedUnit::from_str` accepts a text, as `u`, exactly when the text — read as the body of a JSON string, escape
+sequences decoded — is `u`'s serde name -/
+theorem speed_unit_from_str_iff (s : String) (u : SpeedUnit) :
+    SpeedUnit.fromStr s = some u ↔ jsonUnescape s.toList = some u.name.toList := by
+  unfold SpeedUnit.fromStr
+  exact unitFromStr_iff _ _ speed_unit_of_name_iff s u
+
+/-- … and for a text without a backslash: exactly when it is the name `Display` prints -/
+theorem speed_unit_from_str_plain_iff (s : String) (hs : '\\' ∉ s.toList) (u : SpeedUnit) :
     SpeedUnit.fromStr s = some u ↔ s = u.name := by
+  unfold SpeedUnit.fromStr
+  exact unitFromStr_plain_iff _ _ speed_unit_of_name_iff (by intro u; cases u <;> decide) s hs u
+
+/-- the name table of `DistanceUnit` is read back exactly -/
+theorem distance_unit_of_name_iff (t : String) (u : DistanceUnit) : DistanceUnit.ofName? t = some u ↔ t = u.name := by
   constructor
   · intro h
-    unfold SpeedUnit.fromStr at h
-    split at h
-    · cases h
-    · simp only [SpeedUnit.ofName?] at h
-      have := List.find?_some h
-      exact (beq_iff_eq.mp this).symm
+    simp only [DistanceUnit.ofName?] at h
+    have := List.find?_some h
+    exact (beq_iff_eq.mp this).symm
   · rintro rfl
     cases u <;> decide
 
-/-- `DistanceUnit::from_str` reads exactly the serde names (`Display` prints them), nothing else — OF THE MODEL, which
-answers `none` for every text holding a backslash.  Full statement (not proved, false as it stands): the
-code accepts exactly the texts whose JSON-unescaped form is a serde name — `string_deserialize` reads
-the text as a JSON string, so `"mile\\u0073"` parses as miles; escapes are not modelled and the harness
-sends none -/
-theorem distance_unit_from_str_iff_partial (s : String) (u : DistanceUnit) :
+/-- `DistanceUnit::from_str` accepts a text, as `u`, exactly when the text — read as the body of a JSON string, escape
+sequences decoded — is `u`'s serde name -/
+theorem distance_unit_from_str_iff (s : String) (u : DistanceUnit) :
+    unitFromStr DistanceUnit.ofName? s = some u ↔ jsonUnescape s.toList = some u.name.toList := by
+  exact unitFromStr_iff _ _ distance_unit_of_name_iff s u
+
+/-- … and for a text without a backslash: exactly when it is the name `Display` prints -/
+theorem distance_unit_from_str_plain_iff (s : String) (hs : '\\' ∉ s.toList) (u : DistanceUnit) :
     unitFromStr DistanceUnit.ofName? s = some u ↔ s = u.name := by
+  exact unitFromStr_plain_iff _ _ distance_unit_of_name_iff (by intro u; cases u <;> decide) s hs u
+
+/-- the name table of `TimeUnit` is read back exactly -/
+theorem time_unit_of_name_iff (t : String) (u : TimeUnit) : TimeUnit.ofName? t = some u ↔ t = u.name := by
   constructor
   · intro h
-    unfold unitFromStr at h
-    split at h
-    · cases h
-    · simp only [DistanceUnit.ofName?] at h
-      have := List.find?_some h
-      exact (beq_iff_eq.mp this).symm
+    simp only [TimeUnit.ofName?] at h
+    have := List.find?_some h
+    exact (beq_iff_eq.mp this).symm
   · rintro rfl
     cases u <;> decide
 
-/-- `TimeUnit::from_str` reads exactly the serde names (`Display` prints them), nothing else — OF THE MODEL, which
-answers `none` for every text holding a backslash.  Full statement (not proved, false as it stands): the
-code accepts exactly the texts whose JSON-unescaped form is a serde name — `string_deserialize` reads
-the text as a JSON string, so `"mile\\u0073"` parses as miles; escapes are not modelled and the harness
-sends none -/
-theorem time_unit_from_str_iff_partial (s : String) (u : TimeUnit) :
+/-- `TimeUnit::from_str` accepts a text, as `u`, exactly when the text — read as the body of a JSON string, escape
+sequences decoded — is `u`'s serde name -/
+theorem time_unit_from_str_iff (s : String) (u : TimeUnit) :
+    unitFromStr TimeUnit.ofName? s = some u ↔ jsonUnescape s.toList = some u.name.toList := by
+  exact unitFromStr_iff _ _ time_unit_of_name_iff s u
+
+/-- … and for a text without a backslash: exactly when it is the name `Display` prints -/
+theorem time_unit_from_str_plain_iff (s : String) (hs : '\\' ∉ s.toList) (u : TimeUnit) :
     unitFromStr TimeUnit.ofName? s = some u ↔ s = u.name := by
+  exact unitFromStr_plain_iff _ _ time_unit_of_name_iff (by intro u; cases u <;> decide) s hs u
+
+/-- the name table of `EnergyUnit` is read back exactly -/
+theorem energy_unit_of_name_iff (t : String) (u : EnergyUnit) : EnergyUnit.ofName? t = some u ↔ t = u.name := by
   constructor
   · intro h
-    unfold unitFromStr at h
-    split at h
-    · cases h
-    · simp only [TimeUnit.ofName?] at h
-      have := List.find?_some h
-      exact (beq_iff_eq.mp this).symm
+    simp only [EnergyUnit.ofName?] at h
+    have := List.find?_some h
+    exact (beq_iff_eq.mp this).symm
   · rintro rfl
     cases u <;> decide
 
-/-- `EnergyUnit::from_str` reads exactly the serde names (`Display` prints them), nothing else — OF THE MODEL, which
-answers `none` for every text holding a backslash.  Full statement (not proved, false as it stands): the
-code accepts exactly the texts whose JSON-unescaped form is a serde name — `string_deserialize` reads
-the text as a JSON string, so `"mile\\u0073"` parses as miles; escapes are not modelled and the harness
-sends none -/
-theorem energy_unit_from_str_iff_partial (s : String) (u : EnergyUnit) :
+/-- `EnergyUnit::from_str` accepts a text, as `u`, exactly when the text — read as the body of a JSON string, escape
+sequences decoded — is `u`'s serde name -/
+theorem energy_unit_from_str_iff (s : String) (u : EnergyUnit) :
+    unitFromStr EnergyUnit.ofName? s = some u ↔ jsonUnescape s.toList = some u.name.toList := by
+  exact unitFromStr_iff _ _ energy_unit_of_name_iff s u
+
+/-- … and for a text without a backslash: exactly when it is the name `Display` prints -/
+theorem energy_unit_from_str_plain_iff (s : String) (hs : '\\' ∉ s.toList) (u : EnergyUnit) :
     unitFromStr EnergyUnit.ofName? s = some u ↔ s = u.name := by
+  exact unitFromStr_plain_iff _ _ energy_unit_of_name_iff (by intro u; cases u <;> decide) s hs u
+
+/-- the name table of `EnergyRateUnit` is read back exactly -/
+theorem energy_rate_unit_of_name_iff (t : String) (u : EnergyRateUnit) : EnergyRateUnit.ofName? t = some u ↔ t = u.name := by
   constructor
   · intro h
-    unfold unitFromStr at h
-    split at h
-    · cases h
-    · simp only [EnergyUnit.ofName?] at h
-      have := List.find?_some h
-      exact (beq_iff_eq.mp this).symm
+    simp only [EnergyRateUnit.ofName?] at h
+    have := List.find?_some h
+    exact (beq_iff_eq.mp this).symm
   · rintro rfl
     cases u <;> decide
 
-/-- `EnergyRateUnit::from_str` reads exactly the serde names (`Display` prints them), nothing else — OF THE MODEL, which
-answers `none` for every text holding a backslash.  Full statement (not proved, false as it stands): the
-code accepts exactly the texts whose JSON-unescaped form is a serde name — `string_deserialize` reads
-the text as a JSON string, so `"mile\\u0073"` parses as miles; escapes are not modelled and the harness
-sends none -/
-theorem energy_rate_unit_from_str_iff_partial (s : String) (u : EnergyRateUnit) :
+/-- `EnergyRateUnit::from_str` accepts a text, as `u`, exactly when the text — read as the body of a JSON string, escape
+sequences decoded — is `u`'s serde name -/
+theorem energy_rate_unit_from_str_iff (s : String) (u : EnergyRateUnit) :
+    unitFromStr EnergyRateUnit.ofName? s = some u ↔ jsonUnescape s.toList = some u.name.toList := by
+  exact unitFromStr_iff _ _ energy_rate_unit_of_name_iff s u
+
+/-- … and for a text without a backslash: exactly when it is the name `Display` prints -/
+theorem energy_rate_unit_from_str_plain_iff (s : String) (hs : '\\' ∉ s.toList) (u : EnergyRateUnit) :
     unitFromStr EnergyRateUnit.ofName? s = some u ↔ s = u.name := by
+  exact unitFromStr_plain_iff _ _ energy_rate_unit_of_name_iff (by intro u; cases u <;> decide) s hs u
+
+/-- the name table of `GradeUnit` is read back exactly -/
+theorem grade_unit_of_name_iff (t : String) (u : GradeUnit) : GradeUnit.ofName? t = some u ↔ t = u.name := by
   constructor
   · intro h
-    unfold unitFromStr at h
-    split at h
-    · cases h
-    · simp only [EnergyRateUnit.ofName?] at h
-      have := List.find?_some h
-      exact (beq_iff_eq.mp this).symm
+    simp only [GradeUnit.ofName?] at h
+    have := List.find?_some h
+    exact (beq_iff_eq.mp this).symm
   · rintro rfl
     cases u <;> decide
 
-/-- `GradeUnit::from_str` reads exactly the serde names (`Display` prints them), nothing else — OF THE MODEL, which
-answers `none` for every text holding a backslash.  Full statement (not proved, false as it stands): the
-code accepts exactly the texts whose JSON-unescaped form is a serde name — `string_deserialize` reads
-the text as a JSON string, so `"mile\\u0073"` parses as miles; escapes are not modelled and the harness
-sends none -/
-theorem grade_unit_from_str_iff_partial (s : String) (u : GradeUnit) :
+/-- `GradeUnit::from_str` accepts a text, as `u`, exactly when the text — read as the body of a JSON string, escape
+sequences decoded — is `u`'s serde name -/
+theorem grade_unit_from_str_iff (s : String) (u : GradeUnit) :
+    unitFromStr GradeUnit.ofName? s = some u ↔ jsonUnescape s.toList = some u.name.toList := by
+  exact unitFromStr_iff _ _ grade_unit_of_name_iff s u
+
+/-- … and for a text without a backslash: exactly when it is the name `Display` prints -/
+theorem grade_unit_from_str_plain_iff (s : String) (hs : '\\' ∉ s.toList) (u : GradeUnit) :
     unitFromStr GradeUnit.ofName? s = some u ↔ s = u.name := by
+  exact unitFromStr_plain_iff _ _ grade_unit_of_name_iff (by intro u; cases u <;> decide) s hs u
+
+/-- the name table of `WeightUnit` is read back exactly -/
+theorem weight_unit_of_name_iff (t : String) (u : WeightUnit) : WeightUnit.ofName? t = some u ↔ t = u.name := by
   constructor
   · intro h
-    unfold unitFromStr at h
-    split at h
-    · cases h
-    · simp only [GradeUnit.ofName?] at h
-      have := List.find?_some h
-      exact (beq_iff_eq.mp this).symm
+    simp only [WeightUnit.ofName?] at h
+    have := List.find?_some h
+    exact (beq_iff_eq.mp this).symm
   · rintro rfl
     cases u <;> decide
 
-/-- `WeightUnit::from_str` reads exactly the serde names (`Display` prints them), nothing else — OF THE MODEL, which
-answers `none` for every text holding a backslash.  Full statement (not proved, false as it stands): the
-code accepts exactly the texts whose JSON-unescaped form is a serde name — `string_deserialize` reads
-the text as a JSON string, so `"mile\\u0073"` parses as miles; escapes are not modelled and the harness
-sends none -/
-theorem weight_unit_from_str_iff_partial (s : String) (u : WeightUnit) :
+/-- `WeightUnit::from_str` accepts a text, as `u`, exactly when the text — read as the body of a JSON string, escape
+sequences decoded — is `u`'s serde name -/
+theorem weight_unit_from_str_iff (s : String) (u : WeightUnit) :
+    unitFromStr WeightUnit.ofName? s = some u ↔ jsonUnescape s.toList = some u.name.toList := by
+  exact unitFromStr_iff _ _ weight_unit_of_name_iff s u
+
+/-- … and for a text without a backslash: exactly when it is the name `Display` prints -/
+theorem weight_unit_from_str_plain_iff (s : String) (hs : '\\' ∉ s.toList) (u : WeightUnit) :
     unitFromStr WeightUnit.ofName? s = some u ↔ s = u.name := by
-  constructor
-  · intro h
-    unfold unitFromStr at h
-    split at h
-    · cases h
-    · simp only [WeightUnit.ofName?] at h
-      have := List.find?_some h
-      exact (beq_iff_eq.mp this).symm
-  · rintro rfl
-    cases u <;> decide
+  exact unitFromStr_plain_iff _ _ weight_unit_of_name_iff (by intro u; cases u <;> decide) s hs u
+
+-- an escaped spelling stands for the name (the code: `"mile\\u0073".parse::<DistanceUnit>() == Ok(Miles)`), a raw
+-- tab, a trailing backslash or an unknown escape make the text no JSON string body
+example : jsonUnescape ['m', 'i', 'l', 'e', '\\', 'u', '0', '0', '7', '3'] = some ['m', 'i', 'l', 'e', 's'] := by decide
+example : jsonUnescape ['\\', 'u', '0', '0', '6', 'D', 'i', 'l', 'e', 's'] = some ['m', 'i', 'l', 'e', 's'] := by decide
+example : jsonUnescape ['m', 'i', 'l', 'e', 's', '\\'] = none := by decide
+example : jsonUnescape ['m', 'i', 'l', '\t', 'e', 's'] = none := by decide
+example : jsonUnescape ['m', 'i', 'l', '\\', 'x', 'e', 's'] = none := by decide
+example : jsonUnescape ['m', 'i', 'l', '\\', '/', 'e', 's'] = some ['m', 'i', 'l', '/', 'e', 's'] := by decide
+example : jsonUnescape ['\\', 'u', 'D', '8', '3', 'D', '\\', 'u', 'D', 'E', '0', '0'] = none := by decide
 
 /-- the "soft maximum" is one and the same physical speed in every unit (75 miles per hour), within
 the property's 0.1 percent, and converting it between units lands on the other unit's own value -/
